@@ -75,6 +75,10 @@ class Ctx(object):
             self._solver.pop()
         self.stats["queries"] += 1
         self.stats["solver_s"] += time.time() - t0
+        from . import crosscheck
+
+        if crosscheck.enabled():
+            crosscheck.check(list(self.assumptions) + list(extra), r)
         return r, m
 
     def add_assumption(self, *a):
